@@ -107,3 +107,25 @@ Lemma ex_files : exists a b, nth_opt (w_files ex_w) 0 = Some a /\ nth_opt (w_fil
   exists n2, w_nodes ex_w 2 = Some n2 /\ n_files n2 = [0].
 Proof. do 2 eexists. split; [vm_compute; reflexivity|]. split; [vm_compute; reflexivity|]. split; [vm_compute; discriminate|].
   eexists. split; vm_compute; reflexivity. Qed.
+
+(* ------------------------------------------------------------------ a copy INSIDE one model between files of different
+   versions is filtered for the version of its DESTINATION (C13_copy_filtered says so for every copy; this is an
+   instance): file "f" has version 2, file "g" version 1; package "p" lives only in "f", package "q" only in "g";
+   ELEMENTS of "p" holds a HOLDER and a NEW-THING (permitted in version 2 only).  Source and destination belong to the
+   same model 0, the source's min_version is 2, the destination's is 1: the copy of ELEMENTS into "q" keeps the HOLDER
+   and omits the NEW-THING *)
+Definition mv_script : list op :=
+  setup 2 ++ [OpCreateNamed 4 nNEW (BS "n"); OpCreateFile 0 (BS "g") 1; OpCreateNamed 1 nPKG (BS "q");
+              OpRemoveFromFile 11 0; OpRemoveFromFile 2 1].
+Definition mv_w : world := unval empty_world (run_script mv_script empty_world).
+Definition mv_w' : world := after (run (OpCopy 11 4) mv_w).
+
+Lemma copy_same_model_other_version_example :
+  Inv.run_ops tiny el el check_fn LATEST [] mv_script Inv.empty_world = Val mv_w /\
+  model_of 11 mv_w = Val (OK 0, mv_w) /\ model_of 4 mv_w = Val (OK 0, mv_w) /\
+  min_version LATEST 11 mv_w = Val (OK 1, mv_w) /\ min_version LATEST 4 mv_w = Val (OK 2, mv_w) /\
+  run (OpCopy 11 4) mv_w = Val (OK (VElem 13), mv_w') /\
+  node_content mv_w 4 = [CElem 5; CElem 9] /\
+  option_map n_name (w_nodes mv_w 5) = Some nHOLDER /\ option_map n_name (w_nodes mv_w 9) = Some nNEW /\
+  node_content mv_w' 13 = [CElem 14] /\ option_map n_name (w_nodes mv_w' 14) = Some nHOLDER.
+Proof. vm_compute. repeat split; reflexivity. Qed.
